@@ -218,14 +218,20 @@ def replay_walk(g, walk, tid, frac):
     root = tempfile.mkdtemp(prefix='vlog_')
     try:
         W.now = 0.0
-        r = LogRun(root)
+        # the configured directory is a path like any other: in every seventh history its name has blanks and the characters
+        # that mean something to shells and glob patterns
+        sub = root
+        if tid % 7 == 3:
+            sub = os.path.join(root, 'bgp[lab]-[1] x*?{a,b}')
+            os.makedirs(sub)
+        r = LogRun(sub)
         r.huge = (tid % 4 == 1)
         # the state a first start leaves when it is killed inside its directory set-up: the directory of the peer exists,
         # without (every sixth history) or with an empty (every sixth) msg/ directory
         if tid % 6 == 3:
-            os.makedirs(os.path.join(root, r.peer_dir()))
+            os.makedirs(os.path.join(sub, r.peer_dir()))
         elif tid % 6 == 5:
-            os.makedirs(os.path.join(root, r.peer_dir(), 'msg'))
+            os.makedirs(os.path.join(sub, r.peer_dir(), 'msg'))
         r.fine_clock = (tid % 5 == 2)
         if r.fine_clock:
             W.now = 0.5
